@@ -21,6 +21,8 @@ func main() {
 		cmdSSA(os.Args[2:])
 	case "check":
 		cmdCheck(os.Args[2:])
+	case "rac":
+		cmdRAC(os.Args[2:])
 	default:
 		fmt.Fprintln(os.Stderr, "unknown command", os.Args[1])
 		os.Exit(3)
@@ -58,6 +60,7 @@ func cmdVC(args []string) {
 	verbose := fs.Bool("v", false, "verbose")
 	safety := fs.Bool("safety", false, "safety obligations only")
 	all := fs.Bool("all", false, "all functions with a contract")
+	only := fs.String("only", "", "only obligations whose name contains this substring")
 	sed := fs.String("sed", "", "mutation: file:::old:::new (replace first occurrence in file, in memory)")
 	fs.Parse(args)
 	if *sed != "" {
@@ -94,6 +97,15 @@ func cmdVC(args []string) {
 	var results []*FuncResult
 	for _, k := range keys {
 		r := p.verifyFunc(k, *safety)
+		if *only != "" {
+			var keep []*Obligation
+			for _, o := range r.Obls {
+				if strings.Contains(o.Name, *only) {
+					keep = append(keep, o)
+				}
+			}
+			r.Obls = keep
+		}
 		results = append(results, r)
 	}
 	discharge(results, *work, *timeout, 16, *verbose)
@@ -121,7 +133,38 @@ func cmdVC(args []string) {
 	_ = strings.Join
 }
 
-func cmdCheck(args []string) {
-	fmt.Fprintln(os.Stderr, "check: not implemented yet")
-	os.Exit(3)
+
+func cmdRAC(args []string) {
+	fs := flag.NewFlagSet("rac", flag.ExitOnError)
+	dir := fs.String("dir", "/repo/v2", "package directory")
+	tier := fs.Int("tier", 1, "universe tier")
+	capN := fs.Int64("cap", 200000, "max cases")
+	seed := fs.Int64("seed", 1, "seed")
+	sed := fs.String("sed", "", "mutation: file:::old:::new")
+	show := fs.Bool("src", false, "print harness source")
+	fs.Parse(args)
+	if *sed != "" {
+		parts := strings.SplitN(*sed, ":::", 3)
+		data, _ := os.ReadFile(parts[0])
+		loadOverlay = map[string][]byte{parts[0]: []byte(strings.Replace(string(data), parts[1], parts[2], 1))}
+	}
+	p, err := loadProgram(*dir, "verif")
+	if err != nil {
+		fmt.Fprintln(os.Stderr, err)
+		os.Exit(3)
+	}
+	for _, k := range fs.Args() {
+		if *show {
+			src, _, err := p.racSource(k, *tier, *capN, *seed, nil)
+			fmt.Println(src, err)
+			continue
+		}
+		r := p.runRAC(k, *tier, *capN, *seed, nil, "/verif/work/rac", 600)
+		fmt.Printf("%s: cases=%d pre=%d fails=%d total=%d exhaustive=%v %.1fs err=%s\n", k, r.Cases, r.PreOK, r.Fails, r.Total, r.Exhaustive, r.WallS, r.Error)
+		for i, f := range r.Failures {
+			if i < 5 {
+				fmt.Printf("   FAIL %s  %v\n", f.What, f.Inputs)
+			}
+		}
+	}
 }
